@@ -962,16 +962,35 @@ def random_schedule(b, rng, pend=0.2, cut=0.4):
 
 
 # ====================================================================== C12 / C11 / C06
+def res_class(v):
+    """ok / err / none / PANIC ... without the payload"""
+    return v.split(' ')[0] if v else v
+
+
 class DecBase(Base):
+    """Which error wins when a frame carries SEVERAL faults (corrupted and random frames) is an implementation detail
+    no property speaks about; on such inputs model and implementation are compared by outcome class only, so that a
+    harmless reordering of independent checks does not raise an alarm.  On valid, re-spelled and single-fault
+    (catalogue) frames the comparison is exact."""
+
     def dec_cases(self, rng, tier, suffix=False):
         cs = self.corpus()
+        self.exact = set(cs)
         pool, dist = frame_pool(rng, tier)
         for fam, b, tag, _ in pool:
             if suffix and rng.random() < 0.5:
                 b = b + bytes(rng.getrandbits(8) for _ in range(rng.randint(1, 6)))
-            cs.append('dec %s %s' % (fam, pk.hx(b)))
+            c = 'dec %s %s' % (fam, pk.hx(b))
+            cs.append(c)
+            if tag != 'mut':
+                self.exact.add(c)
             hist(dist, 'frames:' + tag.split(':')[0])
         return cs, dist, pool
+
+    def front_ends(self, case, f, keys=('hdr', 'block', 'async', 'poll')):
+        if case in getattr(self, 'exact', ()):
+            return ';'.join('%s=%s' % (k, f.get(k, '')) for k in keys)
+        return ';'.join('%s=%s' % (k, res_class(f.get(k, ''))) for k in keys)
 
 
 @register
@@ -1037,7 +1056,8 @@ class C12(DecBase):
 
     def project(self, case, line):
         f = fields(line)
-        return ';'.join('%s=%s' % (k, f.get(k, '').split(':')[0]) for k in ('block', 'async', 'poll', 'binv', 'ainv', 'pinv'))
+        return self.front_ends(case, f, ('block', 'async', 'poll')) + ';' + ';'.join(
+            '%s=%s' % (k, f.get(k, '').split(':')[0]) for k in ('binv', 'ainv', 'pinv'))
 
     def nontrivial(self, case, line):
         return '=ok ' in line
@@ -1096,6 +1116,11 @@ class C11(DecBase):
                     return ('KF', 'KF2', 'frame overrun accepted by the %s front-end: %s' % (fe, bad))
                 return bad
         return None
+
+    def project(self, case, line):
+        f = fields(line)
+        return self.front_ends(case, f, ('block', 'async', 'poll')) + ';' + ';'.join(
+            '%s=%s' % (k, f.get(k, '')) for k in ('aused', 'pused', 'ptotal', 'bre', 'are', 'pre'))
 
     def nontrivial(self, case, line):
         return '=ok ' in line
@@ -1171,8 +1196,8 @@ class C06(DecBase):
     def project(self, case, line):
         f = fields(line)
         if case.startswith('sched '):
-            return 'res=' + f.get('res', '')
-        return ';'.join('%s=%s' % (k, f.get(k, '')) for k in ('hdr', 'block', 'async', 'poll'))
+            return 'res=' + (f.get('res', '') if self.chunked.get(case) in self.exact else res_class(f.get('res', '')))
+        return self.front_ends(case, f)
 
     def nontrivial(self, case, line):
         if case.startswith('sched '):
